@@ -7,8 +7,10 @@ use std::collections::HashMap;
 use std::panic::{catch_unwind, AssertUnwindSafe};
 use unicode_bidi::data_source::BidiMatchedOpeningBracket;
 use unicode_bidi::utf16;
+#[allow(unused_imports)]
+use crate::hd::{self, *};
 use unicode_bidi::{
-    BidiClass, BidiDataSource, BidiInfo, Direction, HardcodedBidiData, InitialInfo, Level, LevelRun,
+    BidiClass, BidiDataSource, BidiInfo, Direction, InitialInfo, Level, LevelRun,
     Paragraph, ParagraphBidiInfo, ParagraphInfo, TextSource,
 };
 
@@ -78,12 +80,22 @@ pub struct ReentrantDs<'a>(pub &'a CustomDs);
 /// set when an analysis started from INSIDE a data-source callback gave another answer than the same analysis outside
 pub static NESTED_BAD: std::sync::atomic::AtomicUsize = std::sync::atomic::AtomicUsize::new(0);
 static NESTED_REF: std::sync::OnceLock<String> = std::sync::OnceLock::new();
+#[cfg(not(feature = "hardcoded"))]
+pub fn nested_probe() -> String {
+    // the same probe on the zero-sized caller-supplied source (upper case is R, `<` `>` the only brackets)
+    let ii = InitialInfo::new_with_data_source(&ZstDs, "\u{2067}a\u{2068}B(\u{2066}", None);
+    let b = BidiInfo::new_with_data_source(&ZstDs, "B<A>a <b\u{2067}c>\u{2069}1", Some(Level::ltr()));
+    let ro = b.reorder_line(&b.paragraphs[0], b.paragraphs[0].range.clone());
+    let d = unicode_bidi::get_base_direction_with_data_source(&ZstDs, "\u{2067}x\u{2069}B");
+    format!("{:?}|{}|{:?}|{}|{}", ii.original_classes, ii.paragraphs.len(), b.levels.iter().map(|l| l.number()).collect::<Vec<u8>>(), ro, dir_str(&d))
+}
+#[cfg(feature = "hardcoded")]
 pub fn nested_probe() -> String {
     let ii = InitialInfo::new("\u{2067}a\u{2068}\u{5D0}(\u{2066}", None);
     // `ב [ א ] a` in an LTR paragraph: N0 gives the closing bracket level 1, N1/N2 alone would give it 0
     let b = BidiInfo::new("\u{5D1}[\u{5D0}]a (b\u{2067}c)\u{2069}1", Some(Level::ltr()));
     let ro = b.reorder_line(&b.paragraphs[0], b.paragraphs[0].range.clone());
-    let d = unicode_bidi::get_base_direction("\u{2067}x\u{2069}\u{5D0}");
+    let d = hd::get_base_direction("\u{2067}x\u{2069}\u{5D0}");
     format!("{:?}|{}|{:?}|{}|{}", ii.original_classes, ii.paragraphs.len(), b.levels.iter().map(|l| l.number()).collect::<Vec<u8>>(), ro, dir_str(&d))
 }
 /// to be called once, outside any callback, before the first case
@@ -346,6 +358,16 @@ fn guard<T>(f: impl FnOnce() -> T) -> Option<T> {
 
 /// `run`, plus ` HIDDENPANIC=<n>` when more panics were raised during the operation than the harness caught: the
 /// crate panicked and swallowed it (std::panic::catch_unwind inside the crate) — still a panic for C07
+/// does the operation use the crate's built-in tables?  (`main` skips such cases in the harness build without the
+/// crate feature `hardcoded-data`; what is left names a data source of its own or needs no character data at all)
+pub fn needs_builtin_data(input: &Input) -> bool {
+    match input {
+        Input::Bidi { ds, .. } | Input::Line { ds, .. } | Input::BaseDir { ds, .. } | Input::Stage { ds, .. } | Input::Meta9 { ds, .. } => ds.is_none(),
+        Input::Meta12 { .. } | Input::Rv { .. } | Input::U16 { .. } | Input::Lvl { .. } | Input::U8 { .. } | Input::HasRtl { .. } => false,
+        _ => true,
+    }
+}
+
 pub fn run_counted(id: &str, mode: &str, input: &Input) -> String {
     use std::sync::atomic::Ordering::SeqCst;
     let (r0, s0) = (PANICS_RAISED.load(SeqCst), PANICS_SEEN.load(SeqCst));
@@ -993,9 +1015,9 @@ pub fn run(id: &str, mode: &str, input: &Input) -> String {
                 let (d, df) = match (enc, ds) {
                     (Enc::U8, None) => {
                         let s = to_string8(text);
-                        let d1 = unicode_bidi::get_base_direction(s.as_str());
+                        let d1 = hd::get_base_direction(s.as_str());
                         let d2 = unicode_bidi::get_base_direction_with_data_source(&hd, s.as_str());
-                        let f1 = unicode_bidi::get_base_direction_full(s.as_str());
+                        let f1 = hd::get_base_direction_full(s.as_str());
                         let f2 = unicode_bidi::get_base_direction_full_with_data_source(&hd, s.as_str());
                         assert!(d1 == d2 && f1 == f2, "convenience base direction differs");
                         (d1, f1)
@@ -1024,9 +1046,9 @@ pub fn run(id: &str, mode: &str, input: &Input) -> String {
                     }
                     (Enc::U16, None) => {
                         let s = to_units16(text);
-                        let d1 = unicode_bidi::get_base_direction(s.as_slice());
+                        let d1 = hd::get_base_direction(s.as_slice());
                         let d2 = unicode_bidi::get_base_direction_with_data_source(&hd, s.as_slice());
-                        let f1 = unicode_bidi::get_base_direction_full(s.as_slice());
+                        let f1 = hd::get_base_direction_full(s.as_slice());
                         let f2 = unicode_bidi::get_base_direction_full_with_data_source(&hd, s.as_slice());
                         assert!(d1 == d2 && f1 == f2, "convenience base direction differs");
                         (d1, f1)
@@ -1294,7 +1316,7 @@ pub fn run(id: &str, mode: &str, input: &Input) -> String {
             let mut panics: Vec<u32> = vec![];
             for cp in 0..=0x10FFFFu32 {
                 if let Some(c) = char::from_u32(cp) {
-                    let r = guard(|| (unicode_bidi::bidi_class(c), HardcodedBidiData.bidi_class(c)));
+                    let r = guard(|| (hd::bidi_class(c), HardcodedBidiData.bidi_class(c)));
                     let cl = match r {
                         Some((a, b)) => {
                             if a != b {
@@ -1325,7 +1347,7 @@ pub fn run(id: &str, mode: &str, input: &Input) -> String {
             let mut order_bad: Vec<u32> = vec![];
             let mut probe = |cp: u32, bad: &mut Vec<u32>| {
                 if let Some(c) = char::from_u32(cp) {
-                    let got = guard(|| (cls_idx(unicode_bidi::bidi_class(c)), cls_idx(HardcodedBidiData.bidi_class(c))));
+                    let got = guard(|| (cls_idx(hd::bidi_class(c)), cls_idx(HardcodedBidiData.bidi_class(c))));
                     if got != Some((asc[cp as usize], asc[cp as usize])) && asc[cp as usize] != 255 && bad.len() < 8 { bad.push(cp); }
                 }
             };
@@ -1481,8 +1503,8 @@ pub fn run(id: &str, mode: &str, input: &Input) -> String {
                 let s8 = to_string8(&text8);
                 match ds {
                     None => (
-                        format!("{}{}", dir_str(&unicode_bidi::get_base_direction(u.as_slice())), dir_str(&unicode_bidi::get_base_direction_full(u.as_slice()))),
-                        format!("{}{}", dir_str(&unicode_bidi::get_base_direction(s8.as_str())), dir_str(&unicode_bidi::get_base_direction_full(s8.as_str()))),
+                        format!("{}{}", dir_str(&hd::get_base_direction(u.as_slice())), dir_str(&hd::get_base_direction_full(u.as_slice()))),
+                        format!("{}{}", dir_str(&hd::get_base_direction(s8.as_str())), dir_str(&hd::get_base_direction_full(s8.as_str()))),
                     ),
                     Some(spec) => {
                         let c = CustomDs::new(spec);
@@ -1568,10 +1590,10 @@ pub fn run(id: &str, mode: &str, input: &Input) -> String {
                 }
                 let bd = guard(|| if *enc == Enc::U8 {
                     let s = to_string8(&t);
-                    format!("{}{}", dir_str(&unicode_bidi::get_base_direction(s.as_str())), dir_str(&unicode_bidi::get_base_direction_full(s.as_str())))
+                    format!("{}{}", dir_str(&hd::get_base_direction(s.as_str())), dir_str(&hd::get_base_direction_full(s.as_str())))
                 } else {
                     let s = to_units16(&t);
-                    format!("{}{}", dir_str(&unicode_bidi::get_base_direction(s.as_slice())), dir_str(&unicode_bidi::get_base_direction_full(s.as_slice())))
+                    format!("{}{}", dir_str(&hd::get_base_direction(s.as_slice())), dir_str(&hd::get_base_direction_full(s.as_slice())))
                 });
                 parts.push(or_panic(bd));
                 parts.join("|")
